@@ -799,22 +799,26 @@ func (r *envelopingReader) Read(data []byte) (n int, err error) {
 	if r.err != nil {
 		return 0, r.err
 	}
-	if r.current != nil {
-		bytesRead, err := r.current.Read(data)
-		isEOF := errors.Is(err, io.EOF)
-		if bytesRead > 0 && (err == nil || isEOF) {
-			return bytesRead, nil
+	// If part of the current envelope is still pending (because the previous
+	// call's buffer was too small for it), it must go out before any payload.
+	if r.envRemain == 0 {
+		if r.current != nil {
+			bytesRead, err := r.current.Read(data)
+			isEOF := errors.Is(err, io.EOF)
+			if bytesRead > 0 && (err == nil || isEOF) {
+				return bytesRead, nil
+			}
+			if err != nil && !isEOF {
+				r.err = err
+				return bytesRead, err
+			}
+			// otherwise EOF, fall through
 		}
-		if err != nil && !isEOF {
-			r.err = err
-			return bytesRead, err
-		}
-		// otherwise EOF, fall through
-	}
 
-	if err := r.prepareNext(); err != nil {
-		r.err = err
-		return 0, err
+		if err := r.prepareNext(); err != nil {
+			r.err = err
+			return 0, err
+		}
 	}
 
 	if len(data) < r.envRemain {
